@@ -1,8 +1,46 @@
-"""C12 — see DESIGN.md §5. Shared machinery: checks/hist_common.py, checks/oracles.py."""
-from checks import hist_common
+"""C12 — cache size, LRU, idle sweep, flush before drop (DESIGN.md §5, C12): the
+shared history machinery plus the exhaustive small-scope enumeration the
+property's quantifier asks for (family cacheenum)."""
+import os
+
+import vlib
+from checks import hist_common, oracles
+
+
+def enum(chk):
+    binary, blog = vlib.build_harness()
+    if binary is None:
+        return
+    thorough = chk.tier == "thorough"
+    length = 4 if thorough else 3
+    recs = hist_common.run_family(binary, "cacheenum", chk.seed, 0, "len=%d cfgs=%s" % (length, "all" if thorough else "small"), tag="c12enum")
+    bad = hist_common.eval_oracle("C12", recs)
+    errors = [r for r in recs if r.get("error")]
+    # the model side on a sample of the sequences (every sequence is judged by the oracle)
+    step = max(1, len(recs) // (1500 if thorough else 250))
+    sample = [r for i, r in enumerate(recs) if i % step == 0]
+    diffs = [d for d in hist_common.model_diffs(sample, prefix="c12enum") if set(d[2]) & hist_common.PROJECTION["C12"]]
+    chk.coverage["exhaustive_enumeration"] = {"operation_sequences": len(recs), "max_length": length, "alphabet": ["R0", "R1", "R2+Set", "R0+RegenerateID", "R1+Destroy", "wait 5s", "PurgeSessions", "N:=1"],
+                                             "configurations": "N in {-1,0,1,2,3} x SessionCacheExpiry in {2s, 1h, forever}" if thorough else "N in {-1,0,1,2} x SessionCacheExpiry in {2s, forever}", "model_compared_on": len(sample), "model_mismatches": len(diffs), "exhaustive": True}
+    chk.oblige("oracle holds on all %d operation sequences up to length %d (exhaustive small scope)" % (len(recs), length), not bad and not errors)
+    chk.oblige("model = implementation on %d sampled sequences of the enumeration" % len(sample), not diffs)
+    for r in errors[:1]:
+        chk.violation({"property": "C12", "what": "the real code crashed or deadlocked", "history": r["history"], "detail": r["error"][-2000:]})
+    shown = set()
+    for ri, x in bad:
+        key = x["what"].split("(")[0][:40]
+        if key in shown or len(shown) >= 2:
+            continue
+        shown.add(key)
+        chk.violation(hist_common.replay_record("C12", recs[ri], x), what=x["what"])
+    if not bad and diffs:
+        ri, stepn, fields = diffs[0]
+        chk.violation({"property": "C12", "no_longer_checks": "correspondence on the exhaustive cache enumeration", "history": sample[ri]["history"],
+                       "first_difference": {"step": stepn, "fields": [hist_common.FIELD_NAMES[f] for f in fields]}}, no_input=True)
 
 
 def run(chk):
+    enum(chk)
     return hist_common.run_property(chk, "C12")
 
 
